@@ -73,7 +73,9 @@ def run(tier, seed):
     gwvar = S("Maize", "Loam", seed=seed + 31, seasons=2, gw={"water_table": "Y", "method": "Variable", "dates": ["2000/12/01", "2001/07/01", "2004/06/01"], "values": [2.2, 0.9, 1.8]})
     # (a crop whose aeration / minimum-rooting parameters differ from the fallow filler's, fallow days before planting, wet heavy soil)
     aer = S("Barley", "Clay", seed=seed + 32, seasons=2, lead=20, regime="wet")
-    for sc in cal[:3] + anyc[2:4] + [sparse, gwvar, aer]:
+    # (a dated schedule with events before the start and after both end dates)
+    schd = S("Maize", "SandyLoam", seed=seed + 33, seasons=2, irr={"method": 3, "schedule": [["2001/03/01", 20], ["2001/03/20", 20], ["2001/05/10", 30], ["2001/06/15", 25], ["2002/06/01", 35], ["2004/07/01", 40]]})
+    for sc in cal[:3] + anyc[2:4] + [sparse, gwvar, aer, schd]:
         a = len(jobs)
         jobs.append({"kind": "plain", "scenario": sc})
         for ext in ([1, 200, 365] if tier == "thorough" else [1, 365]):
